@@ -595,7 +595,7 @@ theorem isDna_append {a b : Str} : isDna (a ++ b) = true ↔ isDna a = true ∧ 
 theorem rc_rc_of_isDna {a : Str} (h : isDna a = true) : revComp (revComp a) = a :=
   Props.C11.rc_rc (Props.C11.acgt_iupac (mem_acgt_of_isDna h))
 
-theorem acgt_upper_valid : ∀ c ∈ Props.C11.acgt, c.toUpper = c ∧ Seqhash.nucleotideLetters.contains c = true := by decide
+theorem acgt_upper_valid : ∀ c ∈ Props.C11.acgt, c.toUpper = c ∧ Seqhash.nucleotideLetters.contains c = true ∧ ¬ c.toNat > 127 := by decide
 
 theorem key_dna {a : Str} (h : isDna a = true) :
     key a = Key.canon (lexMin (leastRotation a) (leastRotation (revComp a))) := by
@@ -605,9 +605,13 @@ theorem key_dna {a : Str} (h : isDna a = true) :
     conv => rhs; rw [← List.map_id a]
     exact List.map_congr_left fun c hc => (acgt_upper_valid c (hm c hc)).1
   have hv : (a.all fun c => Seqhash.nucleotideLetters.contains c) = true :=
-    List.all_eq_true.2 fun c hc => (acgt_upper_valid c (hm c hc)).2
+    List.all_eq_true.2 fun c hc => (acgt_upper_valid c (hm c hc)).2.1
+  have ha : (a.any fun c => decide (c.toNat > 127)) = false := by
+    rw [List.any_eq_false]
+    intro c hc
+    simpa using (acgt_upper_valid c (hm c hc)).2.2
   unfold key keyWith
-  simp only [hu, hv, if_true]
+  simp only [ha, hu, hv, if_true, Bool.false_eq_true, if_false]
   rfl
 
 theorem revComp_isRotation {a b : Str} (h : IsRotation a b) : IsRotation (revComp a) (revComp b) := by
